@@ -35,6 +35,9 @@ each format (`cfgsys.STYLES`: JSON indented with spaces / tabs / not at all, com
 characters escaped or literal, every character escaped, key order, CRLF, padding; YAML block / flow / quoted / canonical / folded /
 commented / with document markers / written as JSON text; TOML tables, dotted keys, inline tables, quoted keys, literal / escaped /
 multi-line strings, comments). The harness itself checks with the format's decoder that each text decodes to exactly the tree.
+A file is bytes: in B, C, G every such text is also written in other *encodings* (`ENCODINGS`: UTF-8 with signature, UTF-16 / UTF-32 little and
+big endian with and without byte order mark, Latin-1); where the format's reference decoder applied to the bytes reads exactly the tree the
+file is one more spelling of the tree (S1), and D holds every (format, encoding) of a valid document with the decoder's verdict as the class.
 
 Observations: how the call ended (exception class), `model_dump()`, `generate.model_fields_set`, and the dict that reached
 validation (recorded by a stand-in around `model_validate`). pydantic's verdict is the `validate` parameter of the model: the
@@ -71,7 +74,7 @@ THEOREMS = [_T + n for n in [
     "explicit_over_env", "env_fills_in",
     "configure_fails_cleanly_partial", "configure_nonStringKey_counterexample", "configure_missing_first", "configure_ok_is_merge",
     "parse_unready_refused", "parse_without_generate_refused", "generate_unready_refused", "generate_unconfigured_refused",
-    "generate_fails_cleanly_partial", "generate_glue_without_cpp_counterexample",
+    "generate_fails_cleanly_partial", "generate_glue_without_cpp_counterexample", "generate_typeless", "generate_typeless_unconfigured_refused",
     "history_free", "runReqs_length", "parse_refusal_names_missing", "parseStep_outcome", "generateStep_spec",
     "encodable_combine", "unencodable_override_stays", "assign_assign", "badKeys_nil_iff",
     "configure_checks_the_merge", "configure_unencodable_options_refused", "overridden_file_text_not_refused",
